@@ -400,8 +400,43 @@ def r2_slice_tiling(ctx, rule):
         ctx.ok(rule, qual, 'walk found mid-password: [0:index-len(c)] (guard len(c) != index), K piece of len(c), recursion on '
                '[index:]; at the end: [0:len-len(c)], K piece; otherwise the whole password', facts)
     else:
-        ctx.bad(rule, qual, 'keyboard emission sites %s' % {k: v for k, v in facts.items() if not v},
-                'prefix, walk and rest must tile the password', facts, fn)
+        # not the confirmed spelling.  Look at the prefix pieces that ARE there: (password[lo:hi], None) must end where the walk
+        # starts - at index - len(walk) inside the scan, at len(password) - len(walk) after it.  A piece with other bounds is a
+        # violation; pieces that are not found (moved into a helper ...) leave the rule undecided.
+        stores_k = stores_in(fn)
+        mod_k = ctx.repo.modules[qual.partition('::')[0]]
+        wrong = []
+        for c_ in calls_in(fn):
+            if not (isinstance(c_.func, ast.Attribute) and c_.func.attr == 'append' and c_.args and isinstance(c_.args[0], ast.Tuple)
+                    and len(c_.args[0].elts) == 2 and const(c_.args[0].elts[1]) is None):
+                continue
+            seg = c_.args[0].elts[0]
+            if not (isinstance(seg, ast.Subscript) and isinstance(seg.slice, ast.Slice) and U(seg.value) == 'password'):
+                continue
+            hi = seg.slice.upper
+            if hi is None:
+                continue
+            txt_hi = U(expand(fn, hi, stores_k)).replace("len(''.join(cur_combo))", 'len(cur_combo)')
+            for nm_, lst_ in stores_k.items():
+                if lst_ and all(v_ is not None and U(v_) == "''.join(cur_combo)" for s__, v_ in lst_):
+                    txt_hi = txt_hi.replace('len(%s)' % nm_, 'len(cur_combo)')
+            try:
+                l_hi = lin(ast.parse(txt_hi, mode='eval').body)
+            except SyntaxError:
+                l_hi = None
+            in_loop = False
+            cur = mod_k.parents.get(id(c_))
+            while cur is not None and cur is not fn:
+                if isinstance(cur, (ast.For, ast.While)):
+                    in_loop = True
+                cur = mod_k.parents.get(id(cur))
+            want_hi = Lin({'index': 1, 'len(cur_combo)': -1}, 0) if in_loop else Lin({'len(password)': 1, 'len(cur_combo)': -1}, 0)
+            if l_hi is not None and l_hi != want_hi and set(l_hi.t) <= {'index', 'len(cur_combo)', 'len(password)'}:
+                wrong.append('%s (expected to end at %r)' % (U(seg), want_hi))
+        if wrong:
+            ctx.bad(rule, qual, 'keyboard prefix piece %s' % '; '.join(wrong), 'prefix, walk and rest must tile the password', facts, fn)
+        else:
+            ctx.unk(rule, qual, 'keyboard emission sites not recognised: %s' % {k: v for k, v in facts.items() if not v}, facts)
     ctx.floor(rule, DET, n, 7, 'tiling sites')
 
 
@@ -417,7 +452,9 @@ def r4_multiword_parts(ctx, rule):
     i = U(loops[0].target)
     ok = True
     facts = {'returns': [U(r.value) for r in rets]}
-    allowed = {'None', '[%s[0:%s], %s[%s:]]' % (s, i, s, i), '[%s[:%s], %s[%s:]]' % (s, i, s, i), 'results'}
+    allowed = {'None', '[%s[0:%s], %s[%s:]]' % (s, i, s, i), '[%s[:%s], %s[%s:]]' % (s, i, s, i), 'results',
+               # the head put in front of the recursive result by concatenation instead of results.insert(0, head)
+               '[%s[0:%s]] + results' % (s, i), '[%s[:%s]] + results' % (s, i)}
     for r in rets:
         if U(r.value) not in allowed:
             ok = False
